@@ -1,6 +1,7 @@
 """C03 No comment is lost, duplicated or altered - static necessary condition on discarded tokens."""
 import r_drop
 import r_replace
+import r_keep
 
 EXPLANATION = (
     "Typestate over path enumeration: for every function that can return something else than the wrapper it was given "
@@ -8,7 +9,7 @@ EXPLANATION = (
     "tokens of the input stop existing - each path that drops them must contain calls that return the leading and "
     "the trailing trivia of both tokens (leading_trivia / trailing_trivia / *_comments / take_*_comments on the "
     "span's tokens, on a formatted copy of the span, or on the whole node for its outer sides); boolean tests do not "
-    "count. The same for a semicolon that format_block does not re-emit. (R-REPLACE) in the functions that move comments across operators, commas and `=` (a table of (function, side) pairs frozen from the pinned tree), every FormatTriviaType::Replace of a node's trivia is preceded by a complete read of that side of the same node (All, or Single + Multiline). This is the 'comments of removed tokens are "
+    "count. The same for a semicolon that format_block does not re-emit. (R-REPLACE) in the functions that move comments across operators, commas and `=` (a table of (function, side) pairs frozen from the pinned tree), every FormatTriviaType::Replace of a node's trivia is preceded by a complete read of that side of the same node (All, or Single + Multiline). (R-KEEP) on the kept-token route: format_token rebuilds each comment kind as itself with the same bracket level and a text that only went through trim_end / the newline chain; load_token_trivia only skips Whitespace; format_eof and pop_until_no_whitespace only discard Whitespace. This is the 'comments of removed tokens are "
     "transplanted' mechanism, checked per token and per side. Not decided: comments of kept tokens (they go through "
     "format_token_reference / format_symbol), duplication, ordering among moved comments.")
 ASSUMPTIONS = ["full_moon attaches every comment to exactly one token as leading or trailing trivia",
@@ -16,4 +17,5 @@ ASSUMPTIONS = ["full_moon attaches every comment to exactly one token as leading
 
 
 def run(ctx):
-    return [r_drop.rule_drop(ctx, "C03"), r_replace.rule_replace(ctx, "C03")]
+    return [r_drop.rule_drop(ctx, "C03"), r_replace.rule_replace(ctx, "C03"),
+            r_keep.rule_keep_format_token(ctx, "C03"), r_keep.rule_keep_load(ctx, "C03"), r_keep.rule_keep_eof(ctx, "C03")]
